@@ -684,6 +684,10 @@ func opqOf(cls, id int) any {
 		} else {
 			v = MyStr("named")
 		}
+	case 32: // a pointer to an int holding id: equal to the int id as far as IsEqual is concerned, another value all the same
+		p := new(int)
+		*p = id
+		v = p
 	case 31: // a slice of strings (a multi-valued expression, as a caller might hold one): the slice stays the caller's
 		v = []string{"a", "b c", fmt.Sprint("v", id)}
 	default:
